@@ -317,6 +317,11 @@ func (e *Env) ident(name string) SV {
 			return v
 		}
 	}
+	if e.local && e.from != nil {
+		if v := vc.tolerantAt(name, e.from); v != nil { // tolerant.go
+			return v
+		}
+	}
 	if e.from != nil {
 		panic(unresolved(name))
 	}
